@@ -121,6 +121,10 @@ TXP = "sercomm.tx.next_char"
 QUEUES = "sercomm.tx.dlci_queues"
 HANDLERS = "sercomm.rx.dlci_handler"
 
+# what the receive step does with its buffer at the pinned commit; any other function the buffer is handed to is
+# accepted only where the frame is abandoned (overflow path) and is then evaluated, not trusted (C06.R10)
+RX_BUFFER_CALLS = ("msgb_tailroom", "msgb_free", "msgb_put", "dispatch_rx_msg")
+
 CMP = ("==", "!=", "<", ">", "<=", ">=")
 OCTET_TYPES = ("uint8_t", "unsigned char")
 
@@ -1433,6 +1437,53 @@ def unique_paths(tab):
     return out
 
 
+def no_room_fork(e):
+    """A branch event that took the `no tailroom in the receive buffer` side."""
+    return e[0] == "fork" and (room_bounds(e[3]).get(RXM) or [0, None])[1] == 0
+
+
+def forwards_only(tu, helpers, hname, i, depth=0):
+    """The helper uses its i-th parameter for nothing but passing it on as a call argument (to a function whose
+    call is an event of the walked path, or to another helper that does the same)."""
+    fd = helpers[hname]
+    ps = tu.fparams(fd)
+    if i >= len(ps) or depth > MAX_HELPER_DEPTH:
+        return False
+    pid = ps[i].get("id")
+    for x in walk(tu.body(fd)):
+        if ref_id(x) != pid or kind(x) != "DeclRefExpr":
+            continue
+        cur, par = x, tu.parent.get(id(x))
+        while par is not None and kind(par) in ("ImplicitCastExpr", "ParenExpr", "CStyleCastExpr"):
+            cur, par = par, tu.parent.get(id(par))
+        if kind(par) != "CallExpr" or kids(par)[0] is cur:
+            return False
+        cal = strip(kids(par)[0], casts=True)
+        cname = cal.get("referencedDecl", {}).get("name") if kind(cal) == "DeclRefExpr" else None
+        if cname is None:
+            return False
+        if cname in helpers:
+            j = [k for k, a in enumerate(kids(par)[1:]) if a is cur]
+            if len(j) != 1 or not forwards_only(tu, helpers, cname, j[0], depth + 1):
+                return False
+    return True
+
+
+def recycle_sites(rx):
+    """{(CFG node id, callee)} of the calls that take the receive buffer, are none of RX_BUFFER_CALLS and are
+    evaluated on the walked paths of the receive step ONLY after the no-room side of the tailroom test was taken,
+    i.e. on the full buffer of an abandoned over-long frame."""
+    after, other = set(), set()
+    for p in unique_paths(rx.tab):
+        over = False
+        for e in p.events:
+            if no_room_fork(e):
+                over = True
+            elif e[0] == "call" and RXM in e[2] and e[1] not in RX_BUFFER_CALLS:
+                (after if over else other).add((e[4], e[1]))
+    return after - other
+
+
 def r1_bounded_store(L, tu, tag, size, rx):
     R = "C06.R1"
     f = tu.func(RX_FN)
@@ -1556,8 +1607,8 @@ def r1_bounded_store(L, tu, tag, size, rx):
                 continue
             if e[0] == "store" and e[1] == RXM:
                 fresh, freed = True, False
-            elif e[0] == "call" and e[1] == "msgb_reset" and e[2][:1] == (RXM,):
-                fresh = True
+            elif e[0] == "call" and RXM in e[2] and e[1] not in RX_BUFFER_CALLS:
+                fresh = True                # recycled in place: what the call leaves behind is evaluated by C06.R10
             elif e[0] == "call" and e[1] == "msgb_free" and e[2][:1] == (RXM,):
                 freed = True
             elif e[0] == "call" and e[1] in ("msgb_put", "dispatch_rx_msg"):
@@ -1576,7 +1627,8 @@ def r1_bounded_store(L, tu, tag, size, rx):
     sizes = sorted({tu.fold(call_args(c)[0]) for c in calls_to(f, "sercomm_alloc_msgb")}, key=str)
     L.require(R, F, RX_FN, "receive buffer extent of the %s build" % tag, [size], sizes)
     # who may touch the receive buffer
-    allowed = {"msgb_tailroom", "msgb_free", "msgb_put", "dispatch_rx_msg"}
+    allowed = set(RX_BUFFER_CALLS)
+    recycling = recycle_sites(rx)
     mutators = ("msgb_put", "msgb_push", "msgb_pull", "msgb_get", "msgb_trim", "msgb_reserve", "memcpy", "memset", "msgb_l")
     nuse = 0
     for name, fn in sorted(own_functions(tu).items()):
@@ -1596,6 +1648,20 @@ def r1_bounded_store(L, tu, tag, size, rx):
                      name, True, tu.line(par))
             elif pk == "CallExpr" and kids(par)[0] is not n:
                 callee = ctext(kids(par)[0])
+                if callee not in allowed and (name == RX_FN or name in followed):
+                    cg = g if name == RX_FN else rx.step.graph_of(name)
+                    if callee in followed:
+                        # handed to a helper the step interpreter follows: accepted where the frame is abandoned, if the
+                        # helper only passes the pointer on - those calls are events of the walked overflow paths (C06.R10)
+                        args = [strip(a, casts=True) for a in call_args(par)]
+                        pos = [i for i, a in enumerate(args) if a is strip(n, casts=True) or a is n]
+                        if name == RX_FN and len(pos) == 1 and forwards_only(tu, rx.step.helpers(), callee, pos[0]) and \
+                                (room_bounds(cg.guard_lits(cg.node_of(par))).get(RXM) or [0, None])[1] == 0:
+                            continue
+                    if (cg.node_of(par).id, callee) in recycling:
+                        # evaluated only after the no-room side of the tailroom test, on the abandoned full buffer:
+                        # what the call makes of the buffer is decided by evaluating its body (C06.R10)
+                        continue
                 if callee in allowed:
                     if callee in ("msgb_put", "dispatch_rx_msg"):
                         if name != RX_FN and name not in followed:
@@ -1632,6 +1698,14 @@ def r1_bounded_store(L, tu, tag, size, rx):
     L.floor(R, "uses of %s (%s build)" % (RXM, tag), nuse, 5)
 
 
+def pushed_header(tu):
+    """Octets sercomm_sendmsg() - the transmit entry and the in-tree handler of the echo DLCI - prepends to a buffer."""
+    push = {tu.fold(call_args(c)[1]) for c in calls_to(tu.func("sercomm_sendmsg"), "msgb_push")}
+    if len(push) != 1 or None in push:
+        raise AnalysisError("sercomm_sendmsg(): header length pushed is not one constant -- unclassifiable")
+    return push.pop()
+
+
 def r1_capacity(L, tu, mtu, tag, size):
     """The buffer sercomm_alloc_msgb(SERCOMM_RX_MSG_SIZE) must have room for a payload of that many octets, and
     headroom for the two octets sercomm_sendmsg() prepends.  Room and headroom are those of the buffer the
@@ -1654,10 +1728,7 @@ def r1_capacity(L, tu, mtu, tag, size):
          "payload of that length (every payload shorter than the receive buffer fits before the closing flag)" % (tag, size),
          "size - headroom >= %d" % size, "%d - %d = %d" % (total, head, total - head), total - head >= size,
          tu.line(sa))
-    push = {tu.fold(call_args(c)[1]) for c in calls_to(tu.func("sercomm_sendmsg"), "msgb_push")}
-    if len(push) != 1 or None in push:
-        raise AnalysisError("sercomm_sendmsg(): header length pushed is not one constant -- unclassifiable")
-    need = push.pop()
+    need = pushed_header(tu)
     hr = data[2]
     if ev.find("msgb_headroom") is not None:
         try:
@@ -2946,6 +3017,9 @@ class MsgbEval:
                     bv = self.ev(tu, kids(sb)[0], env, depth)
                 else:
                     inner = self.lv(tu, sb, env, depth)
+                    if inner[0] == "field" and inner[1] != "_data":
+                        # member of a (possibly anonymous) struct / union inside the header: its own cell of the object
+                        return ("field", "%s.%s" % (inner[1], e.get("name")))
                     return ("glob", None) if inner[0] == "glob" else ("unk",)
             if bv == ("@", "obj", 0):
                 return ("field", e.get("name"))
@@ -3375,6 +3449,289 @@ def r7_msgb_algebra(L, tu, mtu, tag, size):
     L.floor(R, "msgb helpers followed (%s build)" % tag, len(ev.followed), 3)
 
 
+# ------------------------------------- C06.R10 the buffer an overflow leaves behind
+
+def overflow_recipes(rx):
+    """What every walked overflow path of the receive step (no-room side of the tailroom test taken) does to the
+    receive buffer afterwards, as a sequence of operations: ('free',) ('null',) ('alloc', n) ('call', callee,
+    args with 'buf' for the buffer).  -> {recipe: (text, line)}; paths C06.R1 already reports (something stored /
+    dispatched, a field of the buffer written in place) are left to it."""
+    out = {}
+    for p in unique_paths(rx.tab):
+        if Rx.room(p) is not False:
+            continue
+        over, ops, txt, line, last_alloc, r1 = False, [], [], None, None, False
+        for e in p.events:
+            if not over:
+                over = no_room_fork(e)
+                continue
+            if e[0] == "call":
+                name, at, tt = e[1], e[2], e[3]
+                if name == RX_ALLOC_FN:
+                    last_alloc = tt[0] if len(tt) == 1 else None
+                    continue
+                if RXM not in at:
+                    if any(RXM in a for a in at):
+                        r1 = True               # a member of the buffer is handed on: C06.R1 (who may touch the buffer)
+                    continue
+                if name == "msgb_tailroom":
+                    continue
+                line = line or e[5]
+                if name == "msgb_free":
+                    ops.append(("free",))
+                    txt.append("msgb_free(%s)" % RXM)
+                elif name in RX_BUFFER_CALLS:
+                    r1 = True                   # msgb_put / dispatch on the overflow path: reported by C06.R1
+                else:
+                    args = []
+                    for a, t in zip(at, tt):
+                        if a == RXM:
+                            args.append("buf")
+                        elif t[0] == "const":
+                            args.append(t[1])
+                        else:
+                            raise AnalysisError("%s(): overflow path hands the receive buffer to %s() with the non-constant "
+                                                "argument `%s` -- unclassifiable" % (RX_FN, name, a))
+                    ops.append(("call", name, tuple(args)))
+                    txt.append("%s(%s)" % (name, ", ".join(str(a) for a in at)))
+            elif e[0] == "store":
+                if e[1] == RXM:
+                    t = e[2]
+                    line = line or e[4]
+                    if t == ("const", 0):
+                        ops.append(("null",))
+                        txt.append("%s = NULL" % RXM)
+                    elif t[0] == "call" and t[1] == RX_ALLOC_FN:
+                        if last_alloc is None or last_alloc[0] != "const":
+                            raise AnalysisError("%s(): overflow path allocates a receive buffer whose size is not a constant "
+                                                "-- unclassifiable" % RX_FN)
+                        ops.append(("alloc", last_alloc[1]))
+                        txt.append("%s = %s(%d)" % (RXM, RX_ALLOC_FN, last_alloc[1]))
+                    else:
+                        raise AnalysisError("%s(): overflow path assigns `%s` to %s -- unclassifiable" % (
+                            RX_FN, ctext_term(t), RXM))
+                elif e[1].startswith(RXM) or (e[5] is not None and e[5][1][0] == "expr" and e[5][1][1].startswith(RXM)):
+                    r1 = True                   # direct write into the buffer: C06.R1
+            elif e[0] == "compound" and e[1].startswith(RXM):
+                r1 = True
+        if over and not r1:
+            out.setdefault(tuple(ops), ("; ".join(txt) or "nothing", line))
+    return out
+
+
+def full_buffer(tu, mtu, size):
+    """(evaluator, buffer, octets allocated, fill level): the receive buffer of this build filled the way the
+    receiver fills it - one msgb_put(.., 1) while msgb_tailroom() reports room - up to the state in which the
+    tailroom test of the receive step takes its no-room side."""
+    ev, m, extent = fresh_buffer(tu, mtu, size)
+    for need in ("msgb_tailroom", "msgb_put"):
+        if ev.find(need) is None:
+            raise AnalysisError("anchor function %s() vanished" % need)
+    k, limit = 0, max(extent, size) + 64
+    while True:
+        try:
+            t = ev.call("msgb_tailroom", [m])
+            if not isinstance(t, int):
+                raise AnalysisError("msgb_tailroom() does not evaluate to an integer at fill level %d" % k)
+            if t < 1:
+                return ev, m, extent, k
+            ev.call("msgb_put", [m, 1])
+        except _Abort as e:
+            raise AnalysisError("filling the receive buffer ends in %s() at fill level %d (see C06.R7) -- unclassifiable" % (e, k))
+        k += 1
+        if k > limit:
+            raise AnalysisError("msgb evaluation: the receive buffer never reports `no room` (see C06.R7) -- unclassifiable")
+
+
+def r10_overflow_buffer(L, tu, mtu, tag, size, rx):
+    """C06.R10 - the buffer an over-long frame leaves behind.  Decides, of the clause `an over-long frame is
+    discarded without corrupting memory, costing at most the one frame that follows it before reception is back
+    in sync`, the part that concerns the NEXT frames: after the overflow path the receive step is idle (C06.R1)
+    and whatever that path left in rx.msg is the buffer the next frame is received in and handed to its DLCI
+    handler with (C06.R4: dispatch with rx.msg; rx.msg is assigned only in the receive step and only allocated
+    when it is NULL - checked below).  That buffer must therefore be as good as the one sercomm_alloc_msgb()
+    returns, in the three respects the rest of the proof uses a fresh buffer for:
+      (a) headroom: the handlers prepend in place - sercomm_sendmsg(), registered for the echo DLCI, pushes the
+          address and control octet - so data - head (and what msgb_headroom() reports) >= that many octets, as
+          C06.R1 demands of the fresh buffer; with less, msgb_push() panics or writes in front of the data area;
+      (b) capacity: real room behind the write pointer >= SERCOMM_RX_MSG_SIZE and msgb_tailroom() reports at
+          least that and no more than is there (every payload shorter than the receive buffer fits; the
+          tailroom test of C06.R1 stays a sound bound);
+      (c) empty: len == 0 and tail == data, else the octets of the discarded frame are delivered in front of the
+          next frame's payload (or the buffer stays full and reception never gets back in sync).
+    Nothing is matched on how the recycling is written: the overflow path's operations on the buffer (free,
+    allocate, NULL, calls that take the buffer - msgb_reset, msgb_trim, msgb_reserve, own helpers are followed
+    by the step interpreter) are replayed by evaluating the callee bodies (MsgbEval: msgb.h / msgb.c) on the
+    FULL buffer of this build - the state in which the no-room side of the tailroom test is taken - and only the
+    resulting head / data / tail / len and the reported head- and tailroom are observed.  rx.msg == NULL
+    afterwards is fine (the next step allocates); a freed buffer kept in rx.msg is C06.R1's finding."""
+    R = "C06.R10"
+    need = pushed_header(tu)
+    recipes = overflow_recipes(rx)
+    L.floor(R, "distinct treatments of the receive buffer on the overflow paths (%s build)" % tag, len(recipes), 1)
+    # premise: outside the overflow paths the buffer in rx.msg is replaced only when it is NULL or was handed on
+    for p in unique_paths(rx.tab):
+        if Rx.room(p) is False:
+            continue
+        known = False
+        for e in p.events:
+            if e[0] == "fork" and any(RXM in t and _TR not in t for (t, _) in e[3]):
+                known = True                    # a NULL test of the buffer pointer was decided on this path
+            elif e[0] == "call" and e[1] in ("msgb_free", "dispatch_rx_msg") and RXM in e[2]:
+                known = True
+            elif e[0] == "store" and e[1] == RXM and not known:
+                if any(op[0] == "call" for r in recipes for op in r):
+                    raise AnalysisError("%s(): %s is replaced on a path that neither tested it nor handed the buffer on; the "
+                                        "buffer an overflow path recycles may never be used -- unclassifiable" % (RX_FN, RXM))
+    full = None
+    nlive = 0
+    for recipe, (text, line) in sorted(recipes.items(), key=lambda x: x[1][0]):
+        if full is None:
+            full = full_buffer(tu, mtu, size)
+            full_obj, nst0 = dict(full[0].obj), len(full[0].stores)
+        ev, m, extent, level = full
+        ev.obj = dict(full_obj)
+        del ev.stores[nst0:]
+        cur = ("live", ev, m, extent)
+        for op in recipe:
+            if op[0] == "free":
+                cur = ("freed",)
+            elif op[0] == "null":
+                cur = ("null",)
+            elif op[0] == "alloc":
+                cur = ("live",) + fresh_buffer(tu, mtu, op[1])
+            else:
+                if cur[0] != "live":
+                    raise AnalysisError("%s(): overflow path calls %s() on a %s receive buffer -- unclassifiable" % (
+                        RX_FN, op[1], "freed" if cur[0] == "freed" else "NULL"))
+                if cur[1].find(op[1]) is None:
+                    raise AnalysisError("%s(): receive buffer handed to %s(), whose body is not available -- unclassifiable"
+                                        % (RX_FN, op[1]))
+                try:
+                    cur[1].call(op[1], [cur[2] if a == "buf" else a for a in op[2]])
+                except _Abort as e:
+                    raise AnalysisError("%s(): %s() on the full receive buffer ends in %s() -- unclassifiable" % (RX_FN, op[1], e))
+        if cur[0] != "live":
+            continue            # NULL: the next step allocates (C06.R1 capacity); freed: reported by C06.R1
+        nlive += 1
+        _, ev2, m2, ext2 = cur
+        for name in sorted(ev2.followed):
+            L.fn(helper_file(ev2, name), name)
+        o = ev2.obj
+        head, data, tail, ln = o.get("head", 0), o.get("data", 0), o.get("tail", 0), o.get("len", 0)
+        state = "head=%s data=%s tail=%s data_len=%s len=%s" % tuple(_vtext(o.get(f, 0)) for f in ("head", "data", "tail", "data_len", "len"))
+        if not all(_sym(v) and v[1] == "buf" for v in (head, data, tail)) or not isinstance(ln, int):
+            raise AnalysisError("%s(): after `%s` head / data / tail of the receive buffer do not point into its data area (%s) "
+                                "-- unclassifiable" % (RX_FN, text, state))
+        wild = [a for a in ev2.stores[nst0 if ev2 is ev else 0:] if not (_sym(a) and a[1] == "buf" and 0 <= a[2] < ext2)]
+        if wild:
+            raise AnalysisError("%s(): `%s` stores at %s, outside the data area -- unclassifiable" % (RX_FN, text, _vtext(wild[0])))
+        what = "over-long frame (%s build): the buffer `%s` leaves in %s for the next frame" % (tag, text, RXM)
+
+        def reported(fn):
+            if ev2.find(fn) is None:
+                return None
+            try:
+                v = ev2.call(fn, [m2])
+            except _Abort:
+                return None
+            return v if isinstance(v, int) else None
+
+        hr = min(data[2] - head[2], data[2])
+        seen = reported("msgb_headroom")
+        if seen is not None:
+            hr = min(hr, seen)
+        L.ob(R, F, RX_FN, "%s has the headroom the DLCI handlers prepend into (sercomm_sendmsg, the handler of the echo DLCI, "
+             "pushes the address and control octet)" % what, "headroom >= %d" % need, "%d (%s)" % (hr, state), hr >= need, line)
+        real = ext2 - tail[2]
+        rep = reported("msgb_tailroom")
+        if rep is None:
+            raise AnalysisError("msgb_tailroom() does not evaluate on the buffer `%s` leaves (%s)" % (text, state))
+        L.ob(R, F, RX_FN, "%s has the full receive capacity, and msgb_tailroom() reports it without exceeding the octets really "
+             "there" % what, "%d <= msgb_tailroom() <= real room" % size, "msgb_tailroom() = %d, real room %d (%s)" % (rep, real, state),
+             size <= rep <= real, line)
+        L.ob(R, F, RX_FN, "%s is empty: nothing of the discarded frame is delivered in front of the next payload" % what,
+             "len == 0, tail == data", "len = %d, tail - data = %d (%s)" % (ln, tail[2] - data[2], state),
+             ln == 0 and tail[2] == data[2], line)
+    L.extra.setdefault("overflow_buffer_treatments", {})[tag] = sorted(t for (t, _) in recipes.values())
+
+
+# ------------------------------------------- C06.R11 extent of the per-DLCI tables
+
+DLCI_ENUM = "sercomm_dlci"
+
+
+def table_extents(tu):
+    """{table lvalue text: extent} of dlci_handler[] / dlci_queues[], from the types clang resolved."""
+    out = {}
+    for name, fn in own_functions(tu).items():
+        for n in walk(tu.body(fn)):
+            if kind(n) == "MemberExpr" and ctext(n) in (HANDLERS, QUEUES):
+                ext = array_extent(n.get("type", {}).get("qualType"))
+                if ext is None:
+                    raise AnalysisError("%s(): extent of %s unknown" % (name, ctext(n)))
+                out.setdefault(ctext(n), set()).add(ext)
+    for base in (HANDLERS, QUEUES):
+        if len(out.get(base, ())) != 1:
+            raise AnalysisError("extent of %s not found in %s" % (base, tu.rel))
+    return {b: v.pop() for b, v in out.items()}
+
+
+def r11_table_extent(L, tu, tag):
+    """C06.R11 - every DLCI has a slot.  Decides a premise of `any DLCI ... is delivered to the handler registered
+    for its DLCI` and of `without corrupting memory`: sercomm_register_rx_cb() refuses and dispatch_rx_msg()
+    drops every DLCI >= the extent of rx.dlci_handler[], and sercomm_sendmsg() indexes tx.dlci_queues[] with the
+    DLCI unchecked (C06.R4/R5).  So (a) every enumerator of enum sercomm_dlci - the DLCIs of the link the rest
+    of the tree registers and sends on - must be a valid index of both tables; the one value allowed besides is
+    the extent itself (an enumerator that counts the DLCIs, as _SC_DLCI_MAX does, is no DLCI); (b) every DLCI
+    that folds to a constant at a call site of sercomm_register_rx_cb() / sercomm_sendmsg() in sercomm.c must be
+    below the extent of the table that call indexes (the echo handler sercomm_init() registers is otherwise
+    never installed).  Values are the ones clang resolves (explicit initialisers folded, implicit ones previous
+    + 1), extents the array types of the members - not the spelling of either declaration."""
+    R = "C06.R11"
+    ext = table_extents(tu)
+    limit = min(ext.values())
+    tables = "%s[%d] / %s[%d]" % (HANDLERS.split(".")[-1], ext[HANDLERS], QUEUES.split(".")[-1], ext[QUEUES])
+    decl = None
+    for d in walk(tu.ast):
+        if kind(d) == "EnumDecl" and d.get("name") == DLCI_ENUM and kids(d):
+            decl = d
+    if decl is None:
+        raise AnalysisError("enum %s vanished" % DLCI_ENUM)
+    hfile = HELPER_FILES.get(os.path.basename(decl.get("_file") or ""), HDR)
+    L.unit(hfile)
+    names = [c for c in kids(decl) if kind(c) == "EnumConstantDecl"]
+    counters = []
+    for c in names:
+        v = tu.enums.get(c.get("name"))
+        if v is None:
+            raise AnalysisError("enumerator %s of enum %s does not fold" % (c.get("name"), DLCI_ENUM))
+        if v == limit:
+            counters.append(c.get("name"))      # the number of DLCIs, not a DLCI (call sites: below)
+            continue
+        L.ob(R, hfile, "enum " + DLCI_ENUM, "DLCI enumerator %s has a slot in the per-DLCI tables of sercomm.c (handler table and "
+             "transmit queues are indexed by the DLCI)" % c.get("name"), "0 <= %s < %d" % (c.get("name"), limit),
+             "%s = %d; tables %s" % (c.get("name"), v, tables), 0 <= v < limit, tu.line(c))
+    L.floor(R, "enumerators of enum %s (%s build)" % (DLCI_ENUM, tag), len(names), 2)
+    L.extra.setdefault("dlci_tables", {})[tag] = {"extents": tables, "enumerators equal to the extent (count, no DLCI)": counters}
+    nsites = 0
+    for name, fn in sorted(own_functions(tu).items()):
+        for callee, base in ((REG, HANDLERS), (SEND, QUEUES)):
+            for c in calls_to(fn, callee):
+                args = call_args(c)
+                v = tu.fold(args[0]) if args else None
+                if v is None:
+                    continue            # a DLCI that is not a constant here: index bounds C06.R4, origin C06.R5
+                nsites += 1
+                L.fn(F, name)
+                L.ob(R, F, name, "constant DLCI `%s` passed to %s() is a valid index of %s[]%s" % (
+                    ctext(args[0]), callee, base.split(".")[-1],
+                    " (else the registration is refused and the handler never installed)" if callee == REG else ""),
+                    "0 <= %s < %d" % (ctext(args[0]), ext[base]), v, 0 <= v < ext[base], tu.line(c))
+    L.floor(R, "constant DLCIs at %s / %s call sites in sercomm.c (%s build)" % (REG, SEND, tag), nsites, 1)
+    return ext
+
+
 # ------------------------------------------------------- C06.R5 (thorough)
 
 SEARCH = (("fw", "src/target/firmware"), ("osmocon", "src/host/osmocon"))
@@ -3490,7 +3847,9 @@ class Origin:
         raise AnalysisError("%s(): DLCI expression `%s` unclassifiable" % (fname, ctext(e)))
 
 
-def r5_callers(L):
+def r5_callers(L, extents=None):
+    """extents: build kind -> {table: extent} (C06.R11); the bound a DLCI must respect is the extent of the table it
+    indexes in sercomm.c of the same build, not the value of an enumerator that happens to be visible here."""
     R = "C06.R5"
     located = []
     for kindname, top in SEARCH:
@@ -3523,7 +3882,9 @@ def r5_callers(L):
             tu = TU(L.repo, kindname, os.path.relpath(rel_, top), L=L,
                     defines=COMMON_DEFINES + FILE_DEFINES.get(rel_, ()),
                     extra_flags=("-I", stub) if kindname == "fw" else ())
-            limit = tu.enums.get("_SC_DLCI_MAX")
+            limit = (extents or {}).get(kindname, {}).get(QUEUES)
+            if limit is None:
+                limit = tu.enums.get("_SC_DLCI_MAX")
             if limit is None:
                 raise AnalysisError("_SC_DLCI_MAX not visible in %s" % rel_)
             org = Origin(tu, limit)
@@ -4868,7 +5229,7 @@ def run(L, tier):
     # every rule group runs as its own stage: an AnalysisError in one of them is deferred, so a violation
     # recognised by another group is still reported
     mtu = L.stage(load_msgb_tu, L)
-    rxvals = {}
+    rxvals, exts = {}, {}
     for tag, kindname, relfile, size in BUILDS:
         tu = L.stage(load_tu, L, kindname, relfile)
         rx = L.stage(Rx, tu)
@@ -4876,6 +5237,8 @@ def run(L, tier):
         L.stage(r1_bounded_store, L, tu, tag, size, rx)
         L.stage(r1_capacity, L, tu, mtu, tag, size)
         L.stage(r7_msgb_algebra, L, tu, mtu, tag, size)
+        L.stage(r10_overflow_buffer, L, tu, mtu, tag, size, rx)
+        exts[kindname] = L.stage(r11_table_extent, L, tu, tag)
         L.stage(r4_index_bounds, L, tu, tag)
         L.stage(r4_dispatch, L, tu, tag)
         L.stage(r4_queue_scan, L, tu, tx)
@@ -4896,4 +5259,4 @@ def run(L, tier):
     else:
         L.stage(r8_rx_callers, L, rxvals)
     if tier == "thorough":
-        L.stage(r5_callers, L)
+        L.stage(r5_callers, L, {k: v for k, v in exts.items() if v is not STAGE_FAILED})
